@@ -200,10 +200,16 @@ package swarm
 //@ requires wplOK(dl) && dl.fdConsuming >= 0
 //@ loop 0 invariant dl.fdConsuming == old(dl.fdConsuming) && dl.waitingOnFd == old(dl.waitingOnFd)
 //@ loop 0 invariant wplNE(dl)
-//@ loop 0 invariant wplPeer(dl)
+//@ loop 0 invariant forall j int :: has(dl.waitingOnPeerLimit, dj.peer) && 0 <= j && j < len(dl.waitingOnPeerLimit[dj.peer]) ==>
+//@         (dl.waitingOnPeerLimit[dj.peer][j] == nil || dl.waitingOnPeerLimit[dj.peer][j].peer == dj.peer) &&
+//@         (j + 1 < len(dl.waitingOnPeerLimit[dj.peer]) ==> dl.waitingOnPeerLimit[dj.peer][j+1] == nil || dl.waitingOnPeerLimit[dj.peer][j+1].peer == dj.peer)
+//@ loop 0 invariant forall q peer.ID, j int :: q != dj.peer && has(dl.waitingOnPeerLimit, q) && 0 <= j && j < len(dl.waitingOnPeerLimit[q]) ==>
+//@         (dl.waitingOnPeerLimit[q][j] == nil || dl.waitingOnPeerLimit[q][j].peer == q) &&
+//@         (j + 1 < len(dl.waitingOnPeerLimit[q]) ==> dl.waitingOnPeerLimit[q][j+1] == nil || dl.waitingOnPeerLimit[q][j+1].peer == q)
 //@ loop 0 invariant wplHead(dl)
 //@ loop 0 invariant dl.activePerPeer[dj.peer] == old(dl.activePerPeer[dj.peer]) - 1
-//@ loop 0 invariant forall q peer.ID :: q != dj.peer ==> dl.activePerPeer[q] == old(dl.activePerPeer[q])
+//@ loop 0 invariant forall q peer.ID :: q != dj.peer ==> dl.activePerPeer[q] == old(dl.activePerPeer[q]) &&
+//@         has(dl.waitingOnPeerLimit, q) == old(has(dl.waitingOnPeerLimit, q)) && dl.waitingOnPeerLimit[q] == old(dl.waitingOnPeerLimit[q])
 //@ loop 0 invariant (len(waitlist) > 0 ==> has(dl.waitingOnPeerLimit, dj.peer) && dl.waitingOnPeerLimit[dj.peer] == waitlist) &&
 //@         (len(waitlist) == 0 ==> !has(dl.waitingOnPeerLimit, dj.peer))
 //@ loop 0 invariant len(waitlist) > 0 ==> waitlist[0] == nil || waitlist[0].peer == dj.peer
